@@ -11,6 +11,7 @@ LIB-SSE CODE
 @description: 
 """
 import json
+import os
 import pathlib
 import pickle
 import shutil
@@ -22,11 +23,13 @@ if not _PROGRAM_PATH.exists():
 
 
 def check_sid_folder_exist(sid: str):
-    return _PROGRAM_PATH.joinpath(sid).exists()
+    # The state file is written last (and atomically), so a folder without it belongs to a service
+    # whose configuration upload was interrupted: it has to be treated as not existing yet.
+    return _PROGRAM_PATH.joinpath(sid).joinpath("service_meta").exists()
 
 
 def create_sid_folder(sid: str):
-    _PROGRAM_PATH.joinpath(sid).mkdir()
+    _PROGRAM_PATH.joinpath(sid).mkdir(exist_ok=True)
 
 
 def delete_sid_folder(sid: str):
@@ -55,8 +58,12 @@ def write_service_meta(sid: str, meta: dict):
     if not service_dir_path.exists():
         return
 
-    with open(service_dir_path.joinpath("service_meta"), "wb") as f:
+    # write to a temporary file first and then rename it,
+    # so that the state file is never seen empty or half-written after a crash
+    tmp_path = service_dir_path.joinpath("service_meta.tmp")
+    with open(tmp_path, "wb") as f:
         pickle.dump(meta, f)
+    os.replace(tmp_path, service_dir_path.joinpath("service_meta"))
 
 
 def read_encrypted_database(sid: str) -> bytes:
